@@ -93,7 +93,7 @@ Fixpoint run_from (fmb lt : Z) (s : t) (i : ops) : outs :=
 Definition run (i : ops) : outs :=
   match i with
   | [0; max_bytes; _; lt] :: i' => [0] :: run_from (max_bytes / 2) lt init i'
-  | _ => map (fun _ => [-1]) i
+  | _ => run_from 0 0 init i        (* no configuration op: as if it were [0; 0; 0; 0] *)
   end.
 
 (** Oracle on the implementation's outputs: with one non-zero lifetime in use, no
@@ -138,5 +138,5 @@ Fixpoint oracle_from (check_reuse : bool) (lt : Z) (acc : list (Z * Z * Z)) (i :
 Definition oracle (i : ops) (o : outs) : bool :=
   match i, o with
   | [0; _; _; lt] :: i', _ :: o' => oracle_from (single_lifetime lt i') lt [] i' o'
-  | _, _ => true
+  | _, _ => oracle_from (single_lifetime 0 i) 0 [] i o
   end.
